@@ -33,8 +33,11 @@ type Entry = (SynNoRefUnit, SynNoRefUnit, A, A);
 fn entry_kinds(b: &Bind<SynNoRef>) -> Vec<Entry> {
     let maps = [("1", "0"), ("2", "0.5"), ("-1.8", "32")];
     let mut out = Vec::new();
-    for &f in &b.units {
-        for &t in &b.units {
+    // rows over the first three units (27 entry kinds); conversions are asked for all units of the type, so the other
+    // units exercise the "no such entry" and same-unit clauses
+    let row_units = &b.units[..b.units.len().min(3)];
+    for &f in row_units {
+        for &t in row_units {
             for (fa, of) in maps {
                 out.push((f, t, amt::parse(fa), amt::parse(of)));
             }
@@ -44,7 +47,13 @@ fn entry_kinds(b: &Bind<SynNoRef>) -> Vec<Entry> {
 }
 
 fn amounts() -> Vec<A> {
-    ["0", "1", "-17.4", "123456.789"].iter().map(|s| amt::parse(s)).collect()
+    let mut v: Vec<A> = ["0", "1", "-17.4", "123456.789"].iter().map(|s| amt::parse(s)).collect();
+    // the roots of the two affine maps with an offset (x*2+0.5 and x*-1.8+32), where a result near zero arises, and
+    // amounts a relative 1e-7 beside them
+    for s in ["-0.25", "-0.250000025", "17.77777777777778", "17.7777795"] {
+        v.push(amt::parse(s));
+    }
+    v
 }
 
 /// the statement, literally
